@@ -22,6 +22,12 @@ func Batch(r *ev.Run, prop, family string, n, parallel int, mk func(c *ev.Case, 
 		if c == nil {
 			continue
 		}
+		if r.NumViolations() > 12 {
+			// enough witnesses: the verdict is settled, and histories on a broken tree can be slow (every
+			// operation that never returns costs a watchdog period)
+			r.Count("histories skipped after more than 12 violations had been recorded", 1)
+			continue
+		}
 		wg.Add(1)
 		sem <- struct{}{}
 		go func(c *ev.Case, i int) {
